@@ -68,6 +68,7 @@ def histories(draw, tier="quick"):
         {"labels": present, "as": "array"},
         {"labels": present + [7], "as": "index"},
         {"labels": list(reversed(present)) + [9], "as": "list"},
+        {"labels": [8] + list(reversed(present)), "as": "array"},  # an UNSORTED writable ndarray (must not be sorted in place)
     ]
     maxsteps = 6 if tier == "quick" else 18
     nsteps = draw(st.integers(2, maxsteps))
@@ -105,7 +106,7 @@ def step(draw, n, narr, chunkings):
             s["func"] = {"registry": draw(st.sampled_from(REGISTRY_ATTRS))}
         else:
             s["func"] = draw(st.sampled_from(RED_FUNCS))
-        s["expected"] = draw(st.sampled_from([None, None, 0, 1, 2]))
+        s["expected"] = draw(st.sampled_from([None, None, 0, 1, 2, 3, 3]))
         s["sort"] = draw(st.sampled_from([None, None, False]))
         if s["expected"] is not None:
             s["fill_value"] = draw(st.sampled_from(["nan", 0, -1]))
